@@ -52,14 +52,14 @@ func (e *Exec) execBuiltin(fr *Frame, st *State, in ssa.CallInstruction, c *ssa.
 	case "append":
 		x := e.val(fr, args[0], st)
 		if isByteSlice(args[0].Type()) {
+			// a []byte that was sent over a channel must not be appended to
+			e.checkWritable(fr, st, in.(ssa.Instruction), x, "append")
 			if ls, ok := args[1].Type().Underlying().(*types.Basic); ok && ls.Info()&types.IsString != 0 {
 				y := e.val(fr, args[1], st)
 				return vBytes(sConcat(x.A[0], y.t()), sAnd(x.A[1], sEq(sx("str.len", y.t()), "0"))).withT(args[0].Type())
 			}
 			y := coerce(e.val(fr, args[1], st), args[0].Type())
 			x = coerce(x, args[0].Type())
-			// frozen identities (sent over a channel) must not be appended to
-			e.checkFrozen(fr, st, in, x)
 			r := vBytes(e.S.Define("app", "String", sConcat(x.A[0], y.A[0])), sAnd(x.A[1], sEq(sx("str.len", y.A[0]), "0"))).withT(args[0].Type())
 			return r
 		}
@@ -137,6 +137,11 @@ func (e *Exec) newError(st *State, why string) Val {
 func (e *Exec) execStdlib(fr *Frame, st *State, in ssa.CallInstruction, c *ssa.CallCommon, callee *ssa.Function, rt types.Type) Val {
 	name := calleeFullName(callee)
 	arg := func(i int) Val { return e.val(fr, c.Args[i], st) }
+	if xf := e.P.CS.Externs[name]; xf != nil {
+		// assumed contract of a function outside the module (listed in the trusted base)
+		e.note("extern-contract: %s (assumed)", name)
+		return e.callModular(fr, st, in.(ssa.Instruction), xf, callee, name, e.callArgs(fr, st, c), rt)
+	}
 	switch name {
 	case "bytes.Index":
 		s, sep := arg(0), arg(1)
